@@ -15,7 +15,9 @@ for d in sorted(os.listdir(os.path.join(VERIF, "seeded"))):
             k = re.search(r"failing assertion: ([\w.:@<> -]+?) —", l)
             if k:
                 keys.append(k.group(1).strip())
-        verdict = {0: "**missed** (exit 0)", 1: "caught", 2: "inconclusive (exit 2)"}.get(r.get("exit"), str(r.get("exit")))
+        verdict = {0: "**missed** (exit 0)", 1: "caught", 2: "inconclusive (exit 2)", None: "not run"}.get(r.get("exit"), str(r.get("exit")))
+        if r.get("wall_s") is not None:
+            verdict += f", {r['wall_s']} s"
         note = r.get("note")
         res.append(f"`./check {chk}`: {verdict}" + (f" — {', '.join(sorted(set(keys))[:3])}" if keys else "") + (f" ({note})" if note else ""))
     rows.append((d, m.get("property", d.split('-')[1]), m.get("change", ""), m.get("needs", ""), "<br>".join(res) or "not run", m.get("status_note", "")))
